@@ -26,12 +26,17 @@ type ReplStats struct {
 	SnapshotStreams  atomic.Int64
 	SnapshotChunks   atomic.Int64
 	MetadataRequests atomic.Int64
+	// command messages whose last command is a Raft-internal (DUMMY) entry with data commands in
+	// front of it, and how many of those were followed by another command message in the same stream
+	DummyTail         atomic.Int64
+	DummyTailThenMore atomic.Int64
 }
 
 type countingStream struct {
 	grpc.ServerStream
 	st     *ReplStats
 	method string
+	tail   bool // the previous command message of this stream ended [data..., DUMMY]
 }
 
 func (c *countingStream) SendMsg(m any) error {
@@ -41,6 +46,21 @@ func (c *countingStream) SendMsg(m any) error {
 		case *pb.ReplicateResponse_CommandsResponse:
 			c.st.CommandMessages.Add(1)
 			c.st.Commands.Add(int64(len(r.CommandsResponse.GetCommands())))
+			cs := r.CommandsResponse.GetCommands()
+			if c.tail && len(cs) > 0 {
+				c.st.DummyTailThenMore.Add(1)
+			}
+			c.tail = false
+			if n := len(cs); n > 1 && cs[n-1].GetCommand().GetType() == pb.Command_DUMMY {
+				for _, x := range cs[:n-1] {
+					if x.GetCommand().GetType() != pb.Command_DUMMY {
+						c.tail = true
+					}
+				}
+				if c.tail {
+					c.st.DummyTail.Add(1)
+				}
+			}
 		case *pb.ReplicateResponse_ErrorResponse:
 			if r.ErrorResponse.Error == pb.ReplicateError_USE_SNAPSHOT {
 				c.st.UseSnapshot.Add(1)
